@@ -7,9 +7,11 @@
    [C12_current_shape_ok], says that the statement list the translator read from the
    current src/Reduino/__init__.py is such a list; it is the only place where the
    current source enters, and it stops compiling when target() no longer has a
-   well-formed shape (e.g. ensure_pio() not guarded by `if upload:`). *)
+   well-formed shape (e.g. ensure_pio() not guarded by `if upload:`, or its except clauses
+   not turning every failure of the probe into RuntimeError). *)
 From Coq Require Import ZArith List Bool.
-From RV Require Import Base.Wire Tool.Target Proofs.TargetP Gen.TargetShape.
+From RV Require Import Base.Wire Base.Text Gen.Registry Tool.Registry Tool.Ini Tool.Target Proofs.TargetP Gen.TargetShape.
+From RV Require Import Tool.TargetIni Proofs.TargetIniP.
 Import ListNotations.
 Open Scope Z_scope.
 
@@ -22,23 +24,25 @@ Print Assumptions C12_validate_first.
 
 (* build/upload happen only if upload was requested; with upload and no fault both
    happen exactly once, the build immediately before the upload, in the project
-   directory; a failed build is never followed by an upload and its error is the result *)
+   directory; a failed build - `pio run` exiting non-zero (CalledProcessError) or not
+   starting at all because the executable vanished after the probe (OSError), that is
+   [build_fault e = Some k] - is never followed by an upload and its error is the result *)
 Theorem C12_upload_iff : forall (e : env) (ss : list step) (evs : list event) (res : result),
   shape_ok ss = true -> target_run e ss = (evs, res) ->
   (forall ev, In ev evs -> is_tool_run ev = true -> upload e = true) /\
   (upload e = true -> pio e = true -> validf e VPlatform VBoard = true -> no_fault e ->
      exists a c, evs = a ++ RunBuild VTmp :: RunUpload VTmp :: c /\
                  (forall ev, In ev (a ++ c) -> is_tool_run ev = false)) /\
-  (fault e FBuild = true ->
+  (forall k, build_fault e = Some k ->
      (forall d, ~ In (RunUpload d) evs) /\
-     (forall d, In (RunBuild d) evs -> res = Raised CalledProcessError)).
+     (forall d, In (RunBuild d) evs -> res = Raised k)).
 Proof. exact upload_iff. Qed.
 Print Assumptions C12_upload_iff.
 
 (* the part of the previous clause that needs no well-formedness at all: whatever the
    body of target() looks like, compile_upload never uploads after a failed build *)
 Theorem C12_failed_build_never_uploads : forall (e : env) (ss : list step) (d : val),
-  fault e FBuild = true -> ~ In (RunUpload d) (fst (exec_list e ss)).
+  build_fault e <> None -> ~ In (RunUpload d) (fst (exec_list e ss)).
 Proof. exact build_fail_no_upload. Qed.
 Print Assumptions C12_failed_build_never_uploads.
 
@@ -54,12 +58,45 @@ Theorem C12_no_write_before_checks :
 Proof. exact no_write_before_checks. Qed.
 Print Assumptions C12_no_write_before_checks.
 
-(* upload requested, PlatformIO missing: RuntimeError, and the probe is the only effect *)
+(* upload requested, PlatformIO missing - in whichever way the probe fails ([pio_how e]:
+   not on PATH, not executable, no executable format, a PATH component that is a file,
+   `pio --version` exiting non-zero): RuntimeError, and the probe is the only effect *)
 Theorem C12_missing_pio_with_upload : forall (e : env) (ss : list step),
   shape_ok ss = true -> validf e VPlatform VBoard = true -> upload e = true -> pio e = false ->
   target_run e ss = ([RunPioVersion], Raised RuntimeError).
 Proof. exact missing_pio_with_upload. Qed.
 Print Assumptions C12_missing_pio_with_upload.
+
+(* the same, with the cause quantified explicitly *)
+Theorem C12_missing_pio_any_cause : forall (e : env) (ss : list step),
+  shape_ok ss = true -> validf e VPlatform VBoard = true -> upload e = true -> pio e = false ->
+  forall how : pfail,
+    target_run {| validf := validf e; upload := upload e; pio := false; pio_how := how; fault := fault e |} ss
+    = ([RunPioVersion], Raised RuntimeError).
+Proof. exact missing_pio_any_cause. Qed.
+Print Assumptions C12_missing_pio_any_cause.
+
+(* [handlers_wrap], the condition shape_ok puts on the except clauses of ensure_pio(), is
+   exactly "every failure of the probe leaves ensure_pio() as RuntimeError" *)
+Theorem C12_wrapping_clauses_exact : forall h : list handler,
+  handlers_wrap h = true <-> forall f : pfail, ensure_kind h f = RuntimeError.
+Proof. exact handlers_wrap_iff. Qed.
+Print Assumptions C12_wrapping_clauses_exact.
+
+(* clauses narrowed to FileNotFoundError / CalledProcessError do not wrap: a `pio` on PATH
+   without execute permission escapes as the raw OSError (absent pio and a non-zero exit are
+   still RuntimeError), and shape_ok rejects that shape *)
+Theorem C12_narrow_clauses_refuted :
+  exists e, validf e VPlatform VBoard = true /\ upload e = true /\ pio e = false /\
+    target_run e shape_narrow = ([RunPioVersion], Raised OSError) /\
+    target_run (env_how true true PNotFound (fun _ => false)) shape_narrow = ([RunPioVersion], Raised RuntimeError) /\
+    target_run (env_how true true PExit (fun _ => false)) shape_narrow = ([RunPioVersion], Raised RuntimeError).
+Proof. exact narrow_refuted. Qed.
+Print Assumptions C12_narrow_clauses_refuted.
+
+Theorem C12_narrow_shape_rejected : shape_ok shape_narrow = false /\ handlers_wrap handlers_narrow = false.
+Proof. exact narrow_not_ok. Qed.
+Print Assumptions C12_narrow_shape_rejected.
 
 (* transpile-only use: effects and result do not depend on PlatformIO being installed,
    and no process is ever started *)
@@ -70,10 +107,10 @@ Proof. exact transpile_only_without_pio. Qed.
 Print Assumptions C12_transpile_only_without_pio.
 
 (* a failing attempt is the last event and its exception is the result
-   (for ANY statement list, well-formed or not) ... *)
+   (for ANY statement list whose ensure_pio() calls wrap, well-formed or not) ... *)
 Theorem C12_failure_propagates :
   forall (e : env) (ss : list step) (evs : list event) (res : result) (pre : list event) (ev : event) (post : list event) (k : kind),
-  target_run e ss = (evs, res) -> evs = pre ++ ev :: post -> ev_fault e ev = Some k ->
+  wraps_all ss = true -> target_run e ss = (evs, res) -> evs = pre ++ ev :: post -> ev_fault e ev = Some k ->
   post = [] /\ res = Raised k.
 Proof. exact failure_propagates. Qed.
 Print Assumptions C12_failure_propagates.
@@ -105,6 +142,61 @@ Theorem C12_writes_exact : forall (e : env) (ss : list step) (evs : list event) 
   shape_ok ss = true -> target_run e ss = (evs, res) -> forall ev, In ev evs -> ev_exact ev.
 Proof. exact writes_exact. Qed.
 Print Assumptions C12_writes_exact.
+
+(* ---- the concrete layer: for a call target(port, platform=, board=) of a script needing
+        [c_libs a] (env_for a: validation decided by the generated registry on these very
+        strings), every platformio.ini text written reads back - with the configparser model
+        of C13 - as exactly one [env:...] section with platform, board, upload_port equal to
+        the arguments and lib_deps the needed libraries.  Guard (C13's): the port has no line
+        break and no blank padding, no library name starts with # or ; *)
+Theorem C12_config_names_exactly_partial :
+  forall (a : cargs) (up pi : bool) (how : pfail) (flt : fpoint -> bool) (ss : list step) (evs : list event) (res : result),
+  shape_ok ss = true ->
+  value_ok (c_port a) = true -> forallb lib_ok (c_libs a) = true ->
+  target_run (env_for a up pi how flt) ss = (evs, res) ->
+  forall ev t, In ev evs -> ini_text a ev = Some t ->
+    ini_read t = Some (expected_ini (c_platform a) (c_board a) (c_port a) (c_libs a)).
+Proof. exact config_exact. Qed.
+Print Assumptions C12_config_names_exactly_partial.
+
+Theorem C12_config_keys : forall (pl b port : text) (libs : list text),
+  let cfg := expected_ini pl b port libs in
+  ini_key k_platform cfg = Some pl /\ ini_key k_board cfg = Some b /\ ini_key k_upload_port cfg = Some port.
+Proof. exact expected_keys. Qed.
+Print Assumptions C12_config_keys.
+
+(* a call that returns has written that file *)
+Theorem C12_returned_call_wrote_config_partial :
+  forall (a : cargs) (up pi : bool) (how : pfail) (flt : fpoint -> bool) (ss : list step) (evs : list event) (v : val),
+  shape_ok ss = true ->
+  value_ok (c_port a) = true -> forallb lib_ok (c_libs a) = true ->
+  target_run (env_for a up pi how flt) ss = (evs, Returned v) ->
+  exists t, In (WriteIni VPort VPlatform VBoard VLibs) evs /\
+            t = render (c_platform a) (c_board a) (c_port a) (c_libs a) /\
+            ini_read t = Some (expected_ini (c_platform a) (c_board a) (c_port a) (c_libs a)).
+Proof. exact returned_config. Qed.
+Print Assumptions C12_returned_call_wrote_config_partial.
+
+(* the regression class of the `board =` line: were it formatted from the sanitised
+   environment name, the file of a registered hyphenated board would name another board;
+   with the template as it is, it names the board *)
+Theorem C12_board_line_sanitized_refuted :
+  validate w_atmelavr w_astar = None /\
+  match ini_read (render_board_sanitized w_atmelavr w_astar w_port0 []) with
+  | Some cfg => ini_key k_board cfg <> Some w_astar
+  | None => True
+  end /\
+  (match ini_read (render w_atmelavr w_astar w_port0 []) with
+   | Some cfg => ini_key k_board cfg = Some w_astar
+   | None => False
+   end).
+Proof. exact board_sanitized_refuted. Qed.
+Print Assumptions C12_board_line_sanitized_refuted.
+
+(* such boards exist in the current registry (the generators draw every one of them) *)
+Example C12_nonvacuous_board_not_word : In w_astar boards_not_word.
+Proof. exact boards_not_word_inhabited. Qed.
+Print Assumptions C12_nonvacuous_board_not_word.
 
 (* ---- the shape of the pinned commit (ensure_pio() unconditional) violates the
         transpile-only clause: same call, PlatformIO absent vs present *)
@@ -148,6 +240,13 @@ Example C12_nonvacuous_faults :
   target_run (env_of true true true (fun f => match f with FBuild => true | _ => false end)) shape_repaired =
     ([RunPioVersion; ReadMain; Parse; Emit; Mkdtemp; Mkdir VTmp; WriteMain VCpp;
       WriteIni VPort VPlatform VBoard VLibs; RunBuild VTmp], Raised CalledProcessError) /\
+  target_run (env_of true true true (fun f => match f with FBuildExec => true | _ => false end)) shape_repaired =
+    ([RunPioVersion; ReadMain; Parse; Emit; Mkdtemp; Mkdir VTmp; WriteMain VCpp;
+      WriteIni VPort VPlatform VBoard VLibs; RunBuild VTmp], Raised OSError) /\
+  target_run (env_of true true true (fun f => match f with FUploadExec => true | _ => false end)) shape_repaired =
+    ([RunPioVersion; ReadMain; Parse; Emit; Mkdtemp; Mkdir VTmp; WriteMain VCpp;
+      WriteIni VPort VPlatform VBoard VLibs; RunBuild VTmp; RunUpload VTmp], Raised OSError) /\
+  target_run (env_how true true PFormat (fun _ => false)) shape_repaired = ([RunPioVersion], Raised RuntimeError) /\
   target_run (env_of true true true (fun f => match f with FWriteMain => true | _ => false end)) shape_repaired =
     ([RunPioVersion; ReadMain; Parse; Emit; Mkdtemp; Mkdir VTmp; WriteMain VCpp], Raised OSError) /\
   target_run (env_of true false true (fun f => match f with FParse => true | _ => false end)) shape_repaired =
